@@ -115,6 +115,11 @@ struct Opts {
     reuse: bool,
     /// compare selfdestruct notifications too (they are property C30's business)
     sdev: bool,
+    /// reuse only: build the Evm for THIS spec, execute (without committing) the first transaction
+    /// under it, then `modify_spec_id` to the scenario's spec -- a spec change on a used instance (C31)
+    respec: Option<SpecId>,
+    /// reuse only: call `preverify_transaction()` before every `transact_commit()` (C31)
+    preverify: bool,
 }
 
 fn setup_env<EXT, DB: Database>(evm: &mut Evm<'_, EXT, DB>, sc: &Value, names: &Names, fork_idx: usize) {
@@ -262,17 +267,29 @@ where
     macro_rules! go {
         ($build:expr, $events:expr) => {{
             if o.reuse {
-                let mut evm = $build(&mut db);
+                let mut evm = $build(&mut db, o.respec.unwrap_or(spec));
                 setup_env(&mut evm, sc, names, fork_idx);
+                if o.respec.is_some() {
+                    if let Some(tx) = txs.first() {
+                        set_tx(&mut evm, tx, sc, names);
+                        let _ = evm.transact();
+                        let _: Vec<Value> = $events(&mut evm);
+                    }
+                    evm.modify_spec_id(spec);
+                }
                 for tx in &txs {
                     set_tx(&mut evm, tx, sc, names);
+                    if o.preverify {
+                        let _ = evm.preverify_transaction();
+                        let _: Vec<Value> = $events(&mut evm);
+                    }
                     let r = evm.transact_commit();
                     let ev: Vec<Value> = $events(&mut evm);
                     res.push(match r { Ok(r) => result_json(&r, names, ev, o.insp == "rec"), Err(_e) => invalid_json(o.insp == "rec") });
                 }
             } else {
                 for tx in &txs {
-                    let mut evm = $build(&mut db);
+                    let mut evm = $build(&mut db, spec);
                     setup_env(&mut evm, sc, names, fork_idx);
                     set_tx(&mut evm, tx, sc, names);
                     let r = evm.transact_commit();
@@ -283,17 +300,17 @@ where
         }};
     }
     match o.insp.as_str() {
-        "none" => go!(|db| Evm::builder().with_db(db).with_spec_id(spec).build(), |_e: &mut Evm<'_, (), &mut DB>| vec![]),
-        "noop" => go!(|db| Evm::builder().with_db(db).with_external_context(NoOpInspector).with_spec_id(spec)
+        "none" => go!(|db, sp: SpecId| Evm::builder().with_db(db).with_spec_id(sp).build(), |_e: &mut Evm<'_, (), &mut DB>| vec![]),
+        "noop" => go!(|db, sp: SpecId| Evm::builder().with_db(db).with_external_context(NoOpInspector).with_spec_id(sp)
                         .append_handler_register(inspector_handle_register).build(),
                       |_e: &mut Evm<'_, NoOpInspector, &mut DB>| vec![]),
-        "gas" => go!(|db| Evm::builder().with_db(db).with_external_context(GasInspector::default()).with_spec_id(spec)
+        "gas" => go!(|db, sp: SpecId| Evm::builder().with_db(db).with_external_context(GasInspector::default()).with_spec_id(sp)
                         .append_handler_register(inspector_handle_register).build(),
                      |_e: &mut Evm<'_, GasInspector, &mut DB>| vec![]),
-        "tracer" => go!(|db| Evm::builder().with_db(db).with_external_context(TracerEip3155::new(Box::new(std::io::sink())))
-                        .with_spec_id(spec).append_handler_register(inspector_handle_register).build(),
+        "tracer" => go!(|db, sp: SpecId| Evm::builder().with_db(db).with_external_context(TracerEip3155::new(Box::new(std::io::sink())))
+                        .with_spec_id(sp).append_handler_register(inspector_handle_register).build(),
                         |_e: &mut Evm<'_, TracerEip3155, &mut DB>| vec![]),
-        _ => go!(|db| Evm::builder().with_db(db).with_external_context(Rec::default()).with_spec_id(spec)
+        _ => go!(|db, sp: SpecId| Evm::builder().with_db(db).with_external_context(Rec::default()).with_spec_id(sp)
                         .append_handler_register(inspector_handle_register).build(),
                  |e: &mut Evm<'_, Rec, &mut DB>| std::mem::take(&mut e.context.external.ev)),
     }
@@ -324,7 +341,9 @@ fn refdb_of(sc: &Value, names: &Names) -> RefDb {
 fn main() {
     let a = Args::parse();
     std::panic::set_hook(Box::new(|_| {}));
-    let o = Opts { db: a.gets("db", "state"), insp: a.gets("insp", "rec"), reuse: a.geti("reuse", 1) == 1, sdev: a.geti("sdev", 0) == 1 };
+    let o = Opts { db: a.gets("db", "state"), insp: a.gets("insp", "rec"), reuse: a.geti("reuse", 1) == 1, sdev: a.geti("sdev", 0) == 1,
+                   respec: { let r = a.gets("respec", ""); if r.is_empty() { None } else { Some(spec_by_name(&r)) } },
+                   preverify: a.geti("preverify", 0) == 1 };
     use std::io::BufRead;
     let input = std::io::BufReader::new(std::fs::File::open(&a.input).unwrap());
     let mut out = Out::new(a.output.as_deref());
